@@ -257,6 +257,24 @@ def UdpJob.serveInline (sz : Sizes) (h : Handler) (j : UdpJob) : UdpJob × Inlin
 def UdpJob.flush (j : UdpJob) : UdpJob × List Datagram :=
   (j.release, if j.txLen = 0 then [] else [j.datagram (j.tx.take j.txLen)])
 
+/-- `udpEngine.sendGroup`: the jobs of one socket. A job without a staged
+reply is skipped, a job the portable reader filled (`rawSALen == 0`) is sent
+directly at once; the others arm slot `k` of the sender — header (name,
+control) and iovec (payload) — and `k` advances for both together. Returns
+the direct sends and the two armed arrays. -/
+def sendGroupArm : List UdpJob → List Datagram × List (Nat × Bytes) × List Bytes
+  | [] => ([], [], [])
+  | j :: t =>
+    let (d, hdrs, iovs) := sendGroupArm t
+    if j.txLen = 0 then (d, hdrs, iovs)
+    else if j.rawSALen = 0 then (j.datagram (j.tx.take j.txLen) :: d, hdrs, iovs)
+    else (d, (j.rawSA, j.pktinfo.take j.pktinfoLen) :: hdrs, j.tx.take j.txLen :: iovs)
+
+/-- what `sendmmsg` then sends: message `k` = header `k` with payload `k` -/
+def sendGroup (jobs : List UdpJob) : List Datagram :=
+  let (d, hdrs, iovs) := sendGroupArm jobs
+  d ++ List.zipWith (fun h b => ({ dest := h.1, ctl := h.2, body := b } : Datagram)) hdrs iovs
+
 /-- a recycled slab as the cache hands it out: the lengths and flags
 `release` owns are clear, everything else is whatever the previous occupant
 left. -/
@@ -527,6 +545,35 @@ def Out.stage (sz : Sizes) (o : Out) (p : Bytes) : Out :=
 
 def Out.total (o : Out) : Bytes := o.wire ++ o.drain
 
+/-- the outbound side with the sticky write error: `failAt` is the (1-based)
+write that times out after the peer took only `accept` bytes of it -/
+structure OutS where
+  wire : Bytes := []
+  drain : Bytes := []
+  writes : Nat := 0
+  werr : Bool := false
+  failAt : Nat := 0
+  accept : Nat := 0
+deriving Repr
+
+/-- `tcpStream.flush`: nothing once `werr` is set; a failing write leaves what
+the peer accepted on the wire and latches the error — for EVERY error -/
+def OutS.flush (o : OutS) : OutS :=
+  if o.werr then o
+  else if o.drain.isEmpty then o
+  else if o.writes + 1 = o.failAt then
+    { o with wire := o.wire ++ o.drain.take o.accept, drain := [], writes := o.writes + 1, werr := true }
+  else { o with wire := o.wire ++ o.drain, drain := [], writes := o.writes + 1 }
+
+/-- `tcpStream.stage` (replies that fit the drain buffer) -/
+def OutS.stage (sz : Sizes) (o : OutS) (p : Bytes) : OutS :=
+  if o.werr then o
+  else if p.length > sz.tcpBuf ∨ 2 + p.length > sz.tcpDrain then o
+  else if o.drain.length + 2 + p.length > sz.tcpDrain then
+    let o := o.flush
+    if o.werr then o else { o with drain := frame p }
+  else { o with drain := o.drain ++ frame p }
+
 /-- `tcpJob.Write` / `WriteMsg` / `rejectInPlace` → `stage`; the reply bytes a
 frame causes (`none` = nothing is staged). `txCap` is the slab class's reply
 capacity (only decides whether a lease is granted, never the bytes). -/
@@ -550,6 +597,22 @@ def tcpFatal (h : Handler) (raw : Bytes) : Bool :=
     | .panic | .writePanic _ => true
     | _ => false
   | _ => false
+
+/-- `serveConn` over a burst delivered in one read (flushes: displacement and the end) -/
+def serveStreamS (sz : Sizes) (h : Handler) : Nat → Bytes → OutS → OutS
+  | 0, _, o => o.flush
+  | fuel + 1, input, o =>
+    if input.length < 2 then o.flush else
+    let n := be16 input 0
+    if n < sz.tcpMinFrame then o.flush else
+    let rest := input.drop 2
+    if rest.length < n then o.flush else
+    let raw := rest.take n
+    let o := match tcpReply sz h raw with
+      | some p => o.stage sz p
+      | none => o
+    if tcpFatal h raw then o.flush else
+    serveStreamS sz h fuel (rest.drop n) o
 
 /-- `serveConn` over the client's byte stream. `blocks` says, for each frame
 boundary, whether the fill buffer was empty there (the connection flushes
@@ -706,6 +769,9 @@ structure EdnsSlot where
   cookie : Nat := 0
 deriving Repr, DecidableEq
 
+/-- `cookie` is the request's client cookie as the strict parser and the edns
+layer see it: a COOKIE option of fewer than 8 bytes is NOT a cookie (the
+strict parser declines the packet, the decoded entry ignores the option) -/
 structure EdnsReq where
   hasOpt : Bool
   doBit : Bool := false
